@@ -242,8 +242,29 @@ macro_rules! msg_lit3 {
         "x"
     };
 }
-/// Messages that reach the encoder as argument-free literals (see `with_rec`).
-pub const MSG_LITERALS: [&str; 4] = [msg_lit0!(), msg_lit1!(), msg_lit2!(), msg_lit3!()];
+macro_rules! msg_lit4 {
+    () => {
+        "éééé"
+    };
+}
+macro_rules! msg_lit5 {
+    () => {
+        "漢字"
+    };
+}
+macro_rules! msg_lit6 {
+    () => {
+        "😀😀😀"
+    };
+}
+macro_rules! msg_lit7 {
+    () => {
+        "ab\u{301}c\u{308}de"
+    };
+}
+/// Messages that reach the encoder as argument-free literals (see `with_rec`); the short multi-byte ones have far
+/// more bytes than characters, so that small widths fall between the two counts.
+pub const MSG_LITERALS: [&str; 8] = [msg_lit0!(), msg_lit1!(), msg_lit2!(), msg_lit3!(), msg_lit4!(), msg_lit5!(), msg_lit6!(), msg_lit7!()];
 
 /// A message piece that stands for "an argument whose Display inserts `LATE_MDC` into the MDC and prints nothing".
 pub const LATE_MDC_PIECE: &str = "\u{1}late-mdc\u{1}";
@@ -314,6 +335,10 @@ pub fn with_rec<R>(rec: &Rec, f: impl FnOnce(&log::Record) -> R) -> R {
         Some(1) => build(format_args!(msg_lit1!())),
         Some(2) => build(format_args!(msg_lit2!())),
         Some(3) => build(format_args!(msg_lit3!())),
+        Some(4) => build(format_args!(msg_lit4!())),
+        Some(5) => build(format_args!(msg_lit5!())),
+        Some(6) => build(format_args!(msg_lit6!())),
+        Some(7) => build(format_args!(msg_lit7!())),
         _ => build(format_args!("{}", disp)),
     };
     log_mdc::clear();
@@ -711,7 +736,16 @@ pub fn spec() -> impl Strategy<Value = Spec> {
         prop::option::weighted(0.7, width()),
         prop::option::weighted(0.6, width()),
     )
-        .prop_map(|(fa, min, max)| {
+        .prop_flat_map(|(fa, min, max)| {
+            // now and then a maximum that does not fit 32 bits (cutting at 4 294 967 296 characters cuts nothing)
+            let huge = prop_oneof![
+                30 => Just(None),
+                1 => prop::sample::select(vec![u32::MAX as usize, 1usize << 32, (1usize << 32) + 3, (1usize << 32) + 300, 1usize << 33, (1usize << 40) + 5, 1usize << 63, usize::MAX - 1, usize::MAX]).prop_map(Some),
+            ];
+            (Just((fa, min, max)), huge)
+        })
+        .prop_map(|((fa, min, max), huge)| {
+            let max = if huge.is_some() { huge } else { max };
             let (fill, align) = match fa {
                 Some((f, right)) => (f, Some(if right { Align::Right } else { Align::Left })),
                 None => (None, None),
